@@ -81,19 +81,33 @@ func AllS(s *gram.Spec) Tags {
 type ActionShape int
 
 const (
-	UseAll   ActionShape = iota // every tagged $i
-	UseFirst                    // only $1
-	UseLast                     // only $n
-	NoAction                    // no action at all (only the recorder)
+	UseAll    ActionShape = iota // every tagged $i
+	UseFirst                     // only $1
+	UseLast                      // only $n
+	NoAction                     // no action at all (only the recorder)
+	Mixed                        // rules with an odd number assign $$ from all $i, even ones only record
+	PlainCopy                    // `$$ = $1` (with a field conversion where the tags differ), no recorder: many rules share one action text
 )
 
 // ActionFor builds the harness-chosen action of rule number r (1-based).
 // The text is valid Go and valid TypeScript.
 func ActionFor(r int, rule gram.Rule, tags Tags, shape ActionShape) string {
-	if shape == NoAction {
+	if shape == NoAction || (shape == Mixed && r%2 == 0) {
 		return fmt.Sprintf(" rec(%d) ", r)
 	}
 	lt := tags[rule.L]
+	if shape == PlainCopy {
+		if len(rule.R) == 0 || lt == "" || tags[rule.R[0]] == "" {
+			return ""
+		}
+		switch {
+		case lt == tags[rule.R[0]]:
+			return " $$ = $1 "
+		case lt == "s":
+			return " $$ = sn($1) "
+		}
+		return " $$ = ns($1) "
+	}
 	var args []string
 	for i, x := range rule.R {
 		if shape == UseFirst && i != 0 {
@@ -172,7 +186,7 @@ func Decorate(s *gram.Spec, tags Tags, shape ActionShape) *Decorated {
 	}
 	for i, r := range s.Rules {
 		r.Action = ActionFor(i+1, r, tags, shape)
-		r.HasAct = true
+		r.HasAct = r.Action != ""
 		n.Rules = append(n.Rules, r)
 	}
 	d.Spec = n
@@ -183,7 +197,8 @@ func Decorate(s *gram.Spec, tags Tags, shape ActionShape) *Decorated {
 func (d *Decorated) Source(variant, pkg string) string {
 	s := *d.Spec
 	if variant == TS {
-		s.Union = "\n n :number;\n s :string;\n"
+		// fields are initialised so that an unassigned $$ reads as 0 / "" as in Go
+		s.Union = "\n n :number = 0;\n s :string = \"\";\n"
 		s.Prologue = tsPrologue
 		s.Epilogue = d.tsEpilogue()
 	} else {
